@@ -199,7 +199,52 @@ def collect_jobs(props, repo):
                          if c.startswith(p + '.')]
                 jobs.append(('mutant', 'seed:' + sid, p, repo, ov, rules,
                              base[p]))
+    if os.environ.get('MSTATIC_NO_GENERATED_VARIANTS') != '1':
+        for p in props:
+            for (mid, ov) in generated_variants(p, repo):
+                jobs.append(('refactor', mid, p, repo, ov, [], base[p]))
     return jobs, skipped
+
+
+GENERATED_KINDS = ('p-rename-local', 'p-hoist-test', 'p-mirror-eq',
+                   'p-swap-else', 'p-add-log', 'p-extract-arg')
+GENERATED_MAX = 48
+
+
+def generated_variants(prop, repo):
+    """A deterministic sample of mechanically generated behaviour-preserving
+    variants (tools/sweep.py: local renamed, test value named first, ==
+    mirrored, branches swapped, logging statement inserted, argument named
+    first) of the functions this property's rules are anchored in.  Every
+    report on such a variant is a false alarm of the checker."""
+    tools = os.path.join(VERIF, 'tools')
+    if tools not in sys.path:
+        sys.path.insert(0, tools)
+    try:
+        import sweep
+    except Exception:
+        return []
+    from mstatic.core import Program
+    try:
+        prog, anc = sweep.anchors(prop)
+    except Exception:
+        return []
+    prog = Program(repo, normalise=False)
+    saved = sweep.KINDS
+    sweep.KINDS = GENERATED_KINDS
+    out = []
+    try:
+        for q in sorted(anc):
+            if q not in prog.funcs:
+                continue
+            for (path, src, desc) in sweep.mutants_of(prog, q):
+                out.append(('gen:' + desc.split(' PRESERVING')[0], {path: src}))
+    finally:
+        sweep.KINDS = saved
+    if len(out) > GENERATED_MAX:
+        step = len(out) / float(GENERATED_MAX)
+        out = [out[int(i * step)] for i in range(GENERATED_MAX)]
+    return out
 
 
 def run_jobs(jobs):
